@@ -133,37 +133,6 @@ theorem weightApplier_spec (doms : List (SubDom F)) (spaces : List Nat) (power :
     apply (weightApplier doms spaces power) x c = weightAt doms spaces power c * x c := by
   unfold weightApplier; rw [apply_diag]; simp [hc]
 
-theorem powN_mul_inv (a : F) (ha : a ≠ 0) (n : Nat) : powN a n * powN a⁻¹ n = 1 := by
-  induction n with
-  | zero => simp [powN]
-  | succ n ih =>
-    simp only [powN]
-    calc a * powN a n * (a⁻¹ * powN a⁻¹ n) = (a * a⁻¹) * (powN a n * powN a⁻¹ n) := by ring
-      _ = 1 := by rw [ih, mul_inv_cancel₀ ha]; ring
-
-theorem powI_neg (a : F) (ha : a ≠ 0) (p : Int) : powI a p * powI a (-p) = 1 := by
-  unfold powI
-  rcases lt_trichotomy p 0 with h | h | h
-  · have h1 : ¬ p ≥ 0 := by omega
-    have h2 : -p ≥ 0 := by omega
-    simp only [h1, h2, if_true, if_false, neg_neg]
-    rw [mul_comm]; exact powN_mul_inv a ha _
-  · subst h; simp [powN]
-  · have h1 : p ≥ 0 := by omega
-    have h2 : ¬ -p ≥ 0 := by omega
-    simp only [h1, h2, if_true, if_false, neg_neg]
-    exact powN_mul_inv a ha _
-
-theorem prodK_mul_map {α : Type} (l : List α) (f g : α → F) (h : ∀ a ∈ l, f a * g a = 1) :
-    prodK (l.map f) * prodK (l.map g) = 1 := by
-  induction l with
-  | nil => simp [prodK]
-  | cons a l ih =>
-    simp only [List.map_cons, prodK]
-    calc f a * prodK (l.map f) * (g a * prodK (l.map g))
-        = (f a * g a) * (prodK (l.map f) * prodK (l.map g)) := by ring
-      _ = 1 := by rw [h a (List.mem_cons_self), ih (fun b hb => h b (List.mem_cons_of_mem _ hb))]; ring
-
 /-- WeightApplier modes: `power` on modes 1,2 and `−power` on modes 4,8 are mutual inverses whenever the
     volume elements involved are non-zero -/
 theorem weightApplier_modes (doms : List (SubDom F)) (spaces : List Nat) (power : Int) (x : Nat → F) (c : Nat)
@@ -411,6 +380,65 @@ theorem matrixProduct1_spec (n : Nat) (m : List K) (x : Nat → K) (i : Nat) (hi
     apply (ofRows n n fun i => (List.range n).map fun j => (j, m.getD (i * n + j) 0)) x i
       = sumN n fun j => m.getD (i * n + j) 0 * x j := by
   rw [apply_ofRows]; simp only [hi, if_true, List.map_map]; rfl
+
+
+/-- SliceOperator / SplitOperator / ExtractAtIndices core: `y[k] = x[sel_0[k_0], sel_1[k_1], …]` in raveled form -/
+theorem axisSelect_spec (sh : List Nat) (sel : List (List Nat)) (x : Nat → K) (r : Nat)
+    (hr : r < prodL (sel.map List.length)) :
+    apply (axisSelect sh sel) x r =
+      x (ravel sh ((List.range sh.length).map fun d =>
+        (sel.getD d []).getD ((unravel (sel.map List.length) r).getD d 0) 0)) := by
+  unfold axisSelect; exact gather_spec _ _ _ x r hr
+
+/-- the indices a (repaired) SplitOperator selects for `start:stop:step` are exactly NumPy's: all
+    `start + k·step` below `min stop n` — in particular their number is the ceiling, not the floor, of
+    `(stop − start)/step` (finding C02-split_strided_length) -/
+theorem sliceIdx_spec (start stop step n : Nat) (hstep : 0 < step) (i : Nat) :
+    i ∈ sliceIdx start stop step n ↔ ∃ k, i = start + k * step ∧ i < min stop n := by
+  unfold sliceIdx
+  have hs : step ≠ 0 := by omega
+  simp only [hs, if_false, List.mem_map, List.mem_range]
+  have key : ∀ k, k < (min stop n - start + step - 1) / step ↔ start + k * step < min stop n := by
+    intro k
+    rw [Nat.lt_iff_add_one_le, Nat.le_div_iff_mul_le hstep]
+    constructor
+    · intro h
+      have : (k + 1) * step = k * step + step := by ring
+      omega
+    · intro h
+      have : (k + 1) * step = k * step + step := by ring
+      omega
+  constructor
+  · rintro ⟨k, hk, rfl⟩; exact ⟨k, rfl, (key k).mp hk⟩
+  · rintro ⟨k, rfl, hk⟩; exact ⟨k, (key k).mpr hk, rfl⟩
+
+/-- e.g. `0:5:2` on an axis of length 5 selects three elements -/
+example : sliceIdx 0 5 2 5 = [0, 2, 4] := by decide
+
+/-- FFTShiftOperator, one axis: `ifftshift ∘ fftshift = id` (modes 1/8 and 2/4 are mutually inverse permutations) -/
+theorem shift1_inverse (n : Nat) (x : Nat → K) (i : Nat) (hi : i < n) :
+    apply (shift1 n true) (apply (shift1 n false) x) i = x i := by
+  unfold shift1
+  have hmod : ∀ a k, a < n → k ≤ n → (a + k) % n = if a + k < n then a + k else a + k - n := by
+    intro a k ha hk
+    by_cases h : a + k < n
+    · simp [h, Nat.mod_eq_of_lt h]
+    · simp only [h, if_false]
+      rw [Nat.mod_eq_sub_mod (by omega), Nat.mod_eq_of_lt (by omega)]
+  simp only [Bool.false_eq_true, if_false, if_true]
+  have h1 : (i + n / 2) % n < n := Nat.mod_lt _ (by omega)
+  rw [gather_spec _ _ _ _ i hi, gather_spec _ _ _ _ _ h1]
+  congr 1
+  rw [hmod i (n / 2) hi (Nat.div_le_self n 2)]
+  by_cases h : i + n / 2 < n
+  · simp only [h, if_true]
+    rw [hmod _ _ h (by omega)]
+    have : ¬ (i + n / 2 + (n - n / 2) < n) := by omega
+    simp only [this, if_false]; omega
+  · simp only [h, if_false]
+    rw [hmod _ _ (by omega) (by omega)]
+    have : i + n / 2 - n + (n - n / 2) < n := by omega
+    simp only [this, if_true]; omega
 
 /-- every row-wise operator with in-range columns satisfies the adjoint identity (instance of `coo_adjoint`) -/
 theorem ofRows_adjoint {cj : K → K} (hc : IsConj cj) (rows cols : Nat) (f : Nat → List (Nat × K))
